@@ -335,6 +335,15 @@ def finalFrom (init : Option Val) (ops : List Op) (k : Key) : Option Val :=
 
 def finalOf (ops : List Op) (k : Key) : Option Val := finalFrom none ops k
 
+/-- the same history applied through `OverlayDB.Put/Delete/Reset` on an overlay over ANY persistent store: the store is
+never consulted by a write (in particular not to skip a write of the value that is already visible) -/
+def Overlay.step (o : Overlay) : Op → Overlay
+  | .put k v => o.put k v
+  | .del k => o.delete k
+  | .reset => o.reset
+
+def Overlay.runOps (o : Overlay) (ops : List Op) : Overlay := ops.foldl Overlay.step o
+
 /-! ## Histories on the three layers (C04) -/
 
 /-- state-changing operations on a `CacheDB` (keys get the `ST_STORAGE` prefix) over an `OverlayDB` (raw keys) over the store -/
